@@ -14,7 +14,7 @@ META = {
     "level": "exploration",
     "engine": "E1 runtime scenario engine",
     "rule": (
-        "seeded random histories of 2-5 runner generations; each generation: a payload population (none / "
+        "seeded random histories of 2-5 runner generations (a new ServiceRunner each, or - 30 % - the same instance accepting again); each generation: a payload population (none / "
         "sleeping and spinning coroutines / blocked threads / 1-3 submitter threads adopting payloads "
         "concurrently), 0-3 concurrent accept() attempts by other runners while it runs, accept_delay "
         "0.01-0.3 s, and an ending in {shutdown from an outside thread, from a thread payload, two or three "
@@ -120,6 +120,8 @@ def gen_case(rnd, spec):
         idx = spec.get("case_index", 0) * 7 + g
         ending = ENDINGS[idx % len(ENDINGS)] if rnd.random() < 0.7 else rnd.choice(ENDINGS)
         gens.append(gen_generation(rnd, g, ending))
+        if g > 0 and rnd.random() < 0.3:
+            gens[-1]["reuse_runner"] = True  # the very same runner instance accepts once more
     return {"watchdog": 45, "inject": common.inject_conf(rnd, 0.8), "generations": gens,
             "meta": {"endings": [g["meta"]["ending"] for g in gens]}}
 
@@ -150,6 +152,8 @@ def judge(case, run, result):
             break
         if g > 0:
             result.count("restarts_after_" + prev_ending)
+            if gen.get("reuse_runner"):
+                result.count("restarts_of_the_same_runner_instance")
         # (1) concurrent accepts are rejected, the active runner is undisturbed
         seconds_called = run.of("call", gen=g, op="second_accept")
         seconds_raised = run.of("raised", gen=g, op="second_accept")
@@ -224,7 +228,7 @@ def run_shard(spec):
 
 
 def finish(total, tier):
-    need = ["histories_completed", "concurrent_accepts_rejected", "shutdown_calls_returned", "race_outcome_returned"]
+    need = ["histories_completed", "restarts_of_the_same_runner_instance", "concurrent_accepts_rejected", "shutdown_calls_returned", "race_outcome_returned"]
     need += ["ending_" + e for e in ENDINGS] + ["restarts_after_" + e for e in ENDINGS]
     for name in need:
         if not total.counters.get(name) and not total.violations:
